@@ -133,8 +133,8 @@ def deviation_part(m):
     d = []
     if m["body"] in ("drop", "alter", "dup"):
         d.append("body=" + m["body"])
-    if m["troot"] == "badc":
-        d.append("troot=badc")
+    if m["troot"] in ("badc", "zeroc"):
+        d.append("troot=" + m["troot"])
     return ",".join(d)
 
 
@@ -415,7 +415,7 @@ def standard(ctx, pid, cfgs, required, oracles, tv=None, extra=None, assumptions
 
 
 # ---------------------------------------------------------------------------------------------- bin/check <ID> --replay <file>
-ALL_SHAPES = {"e": 0, "b": 2, "a": 1, "c": 3, "n0": 0, "n1": 1, "n2": 2, "n3": 3, "l0": 0,
+ALL_SHAPES = {"l1f": [["a1", "t1"]], "e": 0, "b": 2, "a": 1, "c": 3, "n0": 0, "n1": 1, "n2": 2, "n3": 3, "l0": 0,
               "l1": [["a1", "t1"]], "l2": [["a2", "t2"], ["a1", "t3"]], "l3": [["a3", "t1"], ["a3", "t3"], ["a2", "t1"]]}
 
 
